@@ -772,7 +772,14 @@ def rule_correlation(R):
     clause_correlation_kept(R, "corr")
 
 
+def rule_shared_qos_wiring(R):
+    """a PUBLISH carries a packet identifier exactly when its header says QoS > 0: header QoS and identifier allocation use the same (effective) QoS -- C19's rule"""
+    from .c19 import rule_qos as _r
+    _r(R)
+
+
 def run(R):
+    R.rule("qos-wiring", rule_shared_qos_wiring)
     R.rule("corr", rule_correlation)
     R.rule("props", rule_props)
     R.rule("block", rule_block)
